@@ -32,7 +32,7 @@ Init == sc = [depth |-> 0]
 Pick == sc.depth = 0 /\
   \E depth \in 1..3, pos \in {"first", "mid", "last"}, l1 \in Locs, l2 \in Locs, l3 \in Locs,
      decoy \in {"none", "cwd", "other"}, cwd \in Cwds, rel \in BOOLEAN, quoted \in BOOLEAN, again \in {"no", "twice", "diamond"},
-     missing \in BOOLEAN :
+     missing \in BOOLEAN, link \in {"none", "a", "main"} :
        /\ (depth < 2 => l2 = "same") /\ (depth < 3 => l3 = "same")
        /\ (again = "diamond" => depth >= 2 /\ l1 = "same" /\ l2 = "same")    \* main reaches b.asm both through a.asm and directly
        /\ (again # "no" => decoy = "none" /\ ~quoted /\ cwd \in {"proj", "other"})
@@ -40,8 +40,12 @@ Pick == sc.depth = 0 /\
        \* unless the decoy happens to lie in a searched directory, the include must be refused
        \* (only with the decoy in a directory no lookup consults, so that "refused" is the single acceptable outcome)
        /\ (missing => decoy # "none" /\ again = "no" /\ ~quoted /\ (decoy = "other" \/ cwd \in {"other", "."}))
+       \* link: a.asm (or main.asm) is a symbolic link to a file kept in the directory "store", which also holds same-named
+       \* decoys of the files included next: an include is looked up beside the file AS IT WAS NAMED, not beside the link's target
+       /\ (link # "none" => ~missing /\ again = "no" /\ decoy = "none" /\ ~quoted /\ cwd \in {"proj", "other"})
+       /\ (link = "a" => depth >= 2)
        /\ sc' = [depth |-> depth, pos |-> pos, l1 |-> l1, l2 |-> l2, l3 |-> l3, decoy |-> decoy, cwd |-> cwd, rel |-> rel, quoted |-> quoted, again |-> again,
-                 missing |-> missing]
+                 missing |-> missing, link |-> link]
 Next == Pick
 Spec == Init /\ [][Next]_sc
 
@@ -65,8 +69,11 @@ Fs == { [dir |-> "proj", name |-> "main.asm", lines |-> MainLines] }
       \cup (IF sc.depth >= 2 /\ Present(2) THEN { [dir |-> D2, name |-> Names[2], lines |-> F2Lines] } ELSE {})
       \cup (IF sc.depth >= 3 /\ Present(3) THEN { [dir |-> D3, name |-> Names[3], lines |-> Body(3)] } ELSE {})
 \* decoys: same names, other content, in a directory that must not be consulted (unless it is a real candidate)
-Decoys == IF sc.decoy = "none" THEN {}
+Decoys == IF sc.link # "none" THEN { [dir |-> "store", name |-> Names[j], lines |-> Decoy(j)] : j \in (IF sc.link = "a" THEN 2 ELSE 1)..sc.depth }
+          ELSE IF sc.decoy = "none" THEN {}
           ELSE { [dir |-> DecoyDir, name |-> Names[j], lines |-> Decoy(j)] : j \in 1..sc.depth }
+\* which file is materialised as a symbolic link into "store" (the harness writes the content there under a private name)
+Links == IF sc.link = "a" THEN {<<D1, Names[1]>>} ELSE IF sc.link = "main" THEN {<<"proj", "main.asm">>} ELSE {}
 
 \* a decoy that happens to sit in a directory the documented lookup DOES consult is a legitimate candidate:
 \* such scenarios stay in the space, Flatten then accepts either file
@@ -76,7 +83,7 @@ Expected == FlattenFile(AllFiles, Main, IncDirs, 4)
 
 LineTexts(f) == [j \in 1..Len(f.lines) |-> f.lines[j].text]
 Export == sc.depth # 0 =>
-  PrintT(<<"SC", sc, {<<f.dir, f.name, LineTexts(f)>> : f \in AllFiles}, Expected>>)
+  PrintT(<<"SC", sc, {<<f.dir, f.name, LineTexts(f)>> : f \in AllFiles}, Expected, Links>>)
 NonEmpty == sc.depth # 0 => (sc.missing <=> Expected = {})
 \* the missing-file scenarios do contain refusals (non-vacuity), checked by the harness on the exported sets
 =============================================================================
